@@ -282,6 +282,15 @@ class Fn:
         return False
 
     # ------------------------------------------------------------------ expressions
+    def _is_class_ref(self, node) -> bool:
+        d = dotted(node)
+        if d is None or self.is_local(d.split(".")[0]):
+            return False
+        obj = self.glob.get(d.split(".")[0])
+        for p_ in d.split(".")[1:]:
+            obj = getattr(obj, p_, None)
+        return isinstance(obj, type) and obj.__module__.startswith("chartparse")
+
     def _plain_const(self, v, depth=0) -> bool:
         if isinstance(v, (str, int, type(None), enum.Enum)):
             return True
@@ -352,6 +361,9 @@ class Fn:
                 and isinstance(self.glob.get(node.value.id), dict) and not isinstance(node.slice, ast.Slice):
             # a look-up in a module-level table: the external call `<table>[]`
             return f"(.call {lean_str(node.value.id + '[]')} {self.spine([self.expr(node.slice)])})"
+        if isinstance(node, ast.Subscript) and not isinstance(node.slice, ast.Slice) and self._is_class_ref(node.slice):
+            # a look-up keyed by a class object (`parsed_data[NoteEvent.ParsedData]`): the receiver's own `__getitem__`, an external call
+            return f"(.call \".__getitem__\" {self.spine([self.expr(node.value), self.expr(node.slice)])})"
         if isinstance(node, ast.Subscript):
             if isinstance(node.slice, ast.Slice):
                 if node.slice.step is not None:
@@ -627,6 +639,9 @@ FUNCTIONS = [
     ("instrumentFromChartLines", "instrument", "InstrumentTrack.from_chart_lines"),
     ("syncFromChartLines", "sync", "SyncTrack.from_chart_lines"),
     ("globalEventsFromChartLines", "globalevents", "GlobalEventsTrack.from_chart_lines"),
+    ("instrumentParseData", "instrument", "InstrumentTrack._parse_data_from_chart_lines"),
+    ("syncParseData", "sync", "SyncTrack._parse_data_from_chart_lines"),
+    ("globalEventsParseData", "globalevents", "GlobalEventsTrack._parse_data_from_chart_lines"),
 ]
 
 
